@@ -4,6 +4,7 @@ from __future__ import annotations
 import copy
 
 from .. import runner as R
+from .c09 import contexts, embed
 from .. import vocab as V
 from .. import docmodel as D
 from .. import spaces as S
@@ -21,7 +22,7 @@ ASSUMPTIONS = ["representatives are written the way MapServer writes the alterna
 
 
 def units(tier):
-    us = [("TYPES",), ("STORAGE",), ("DEFAULTS",)]
+    us = [("TYPES",), ("STORAGE",), ("DEFAULTS",), ("ALTS",)]
     us += [("SLOTS", t) for t in V.object_types()]
     return us
 
@@ -198,6 +199,19 @@ def with_required(tree):
     return t
 
 
+_NESTED = {}
+
+
+def nested_contexts(otype):
+    """the shortest containment path (from any root type) that ends in otype - one nested context per type"""
+    if otype not in _NESTED:
+        # inline SYMBOL blocks (CLASS/STYLE SYMBOL ... END) are the subject of a known finding (stored under "symbols"): not used as context
+        ctxs = [c for c in contexts(otype) if c[1] is not None and all(e[3] != "inline" for e in c[1])]
+        ctxs.sort(key=lambda c: (len(c[1]), c[0]))
+        _NESTED[otype] = ctxs[:1]
+    return _NESTED[otype]
+
+
 def run_slots(res, otype):
     n = 0
     for label, tree in S.s2(otype, valid_only=True):
@@ -213,6 +227,27 @@ def run_slots(res, otype):
         if cat is None:
             R.add_outcome(res, "slot_consistent")
             res["states"].add(R.h64(D.render(tree)[0]))
+            # the same object at the end of its shortest containment path: still parsed, to the same object
+            for cname, path in nested_contexts(otype):
+                ntext = D.render(embed(path, tree))[0]
+                res["evals"] += 1
+                try:
+                    nd = impl.loads(ntext)
+                    inner = nd
+                    for parent, key, ct, how in path:
+                        inner = inner[key]
+                        if isinstance(inner, list):
+                            inner = inner[0]
+                    same = D.typed(inner) == D.typed(impl.loads(D.render(tree)[0]))
+                    why = "the nested object differs from the same object at the root"
+                except Exception as e:
+                    same, why = False, "%s: %s" % (impl.exc_name(e), str(e).replace("\n", " ")[:120])
+                if same:
+                    R.add_outcome(res, "slot_consistent_nested")
+                else:
+                    R.add_outcome(res, "nested_differs")
+                    R.add_violation(res, "nested|%s|%s" % (cname, P.oneline(tree)), "a document accepted at the root is not parsed (to the same object) inside its parent: " + why,
+                                    {"tree": D.describe(tree), "nested": cname}, None)
             continue
         R.add_outcome(res, cat.split(":")[0])
 
@@ -294,6 +329,31 @@ def why_keys(why):
     return ",".join(ks) if ks else why[:60]
 
 
+def run_alts(res):
+    """every value alternative a schema lists for a keyword admits at least one of its own representatives: a representative of the
+    alternative must validate against the keyword's WHOLE schema (two overlapping alternatives under oneOf reject what each of them lists)"""
+    for t in V.object_types():
+        for s_ in V.slots(t):
+            if s_.kind != "simple":
+                continue
+            for ai, a in enumerate(s_.alts):
+                reps = V.reps_for(s_, a)
+                if not reps:
+                    continue
+                res["evals"] += 1
+                ok = [r for r in reps if SE.valid(SE.lower_json(r.value), s_.schema)]
+                if ok:
+                    R.add_outcome(res, "alternative_usable")
+                    res["states"].add(R.h64((t, s_.key, ai)))
+                else:
+                    why = list(SE.errors(SE.lower_json(reps[0].value), s_.schema))[:2]
+                    R.add_outcome(res, "alternative_unusable")
+                    R.add_violation(res, "alternative|%s.%s alt=%d (%s)" % (t, s_.key, ai, a.kind), "no representative of this value alternative is accepted by the keyword's own schema: %r -> %s" % (
+                        reps[0].value, why), {"type": t, "key": s_.key, "alt": ai}, None)
+    R.add_sub(res, "value alternatives x own representatives against the whole keyword schema", res["evals"])
+    return res
+
+
 def run_unit(unit):
     res = R.new_result()
     k = unit[0]
@@ -303,6 +363,8 @@ def run_unit(unit):
         run_storage(res)
     elif k == "DEFAULTS":
         run_defaults(res)
+    elif k == "ALTS":
+        run_alts(res)
     else:
         run_slots(res, unit[1])
     return res
@@ -314,6 +376,25 @@ def describe(tier):
 
 
 def replay(case):
+    if "alt" in case and "key" in case:
+        r = run_alts(R.new_result())
+        hits = [v for v in r["violations"] if v["case"] == case]
+        return {"what": hits[0]["what"]} if hits else None
+    if "nested" in case:
+        tree = D.undescribe(case["tree"])
+        for cname, path in nested_contexts(tree.type):
+            try:
+                nd = impl.loads(D.render(embed(path, tree))[0])
+                inner = nd
+                for parent, key, ct, how in path:
+                    inner = inner[key]
+                    if isinstance(inner, list):
+                        inner = inner[0]
+                if D.typed(inner) != D.typed(impl.loads(D.render(tree)[0])):
+                    return {"nested": cname, "what": "differs"}
+            except Exception as e:
+                return {"nested": cname, "what": impl.exc_name(e)}
+        return None
     if "tree" in case:
         cat, msg = judge_slot_doc(D.undescribe(case["tree"]))
         return {"category": cat, "message": msg} if cat else None
